@@ -39,8 +39,8 @@ type c13Case struct {
 	Events []xmodel.Event `json:"events"`
 	// a second document (same shape and other values, or unrelated); nil: none
 	Events2 []xmodel.Event `json:"events2,omitempty"`
-	Exprs  []string       `json:"exprs"`
-	Ops    []c13Op        `json:"ops"`
+	Exprs   []string       `json:"exprs"`
+	Ops     []c13Op        `json:"ops"`
 }
 
 var c13Hist = reg("C13", "c13-history", checkC13)
